@@ -238,7 +238,21 @@ def check_merge(s, rng, tmpdir, idx):
     if non_strict:
         argv.append(rng.choice(['-n', '--non-strict']))
     outpath = os.path.join(tmpdir, 'out-%d.xml' % idx)
+    preexisting = None
     if outfile:
+        r = rng.random()
+        if r < 0.08 and len(paths) > 1:
+            # the output path is also one of the inputs (the library reads its inputs before anything is written)
+            cand = [p for p in paths if os.path.isfile(p) and b'<roCreate' not in open(p, 'rb').read()]
+            if cand:
+                outpath = rng.choice(cand)
+                flavour += '+out-is-input'
+                preexisting = open(outpath, 'rb').read()
+        elif r < 0.55:
+            # an older, longer result is already there
+            preexisting = ('<mos>' + '<old>previous result</old>' * rng.randint(50, 400) + '</mos>\n').encode()
+            with open(outpath, 'wb') as f:
+                f.write(preexisting)
         argv += ['-o', outpath]
     # what the library computes
     import mosromgr.moscollection as mcmod
@@ -283,6 +297,13 @@ def check_merge(s, rng, tmpdir, idx):
             s.custom_violation('merge-error-status-not-2', det, wit, msg_kind='merge', status=flavour)
         if not err.strip():
             s.custom_violation('merge-error-without-stderr-message', det, wit, msg_kind='merge', status=flavour)
+        if outfile:
+            # nothing was merged, so nothing may have been written: the path is as it was
+            now = open(outpath, 'rb').read() if os.path.exists(outpath) else None
+            if now != preexisting:
+                s.custom_violation('merge-error-but-output-file-written', dict(det, existed_before=preexisting is not None),
+                                   wit, msg_kind='merge', status='-o')
+    s.hist['cli:merge:preexisting-outfile'] += int(preexisting is not None)
     if os.path.exists(outpath):
         os.unlink(outpath)
 
